@@ -479,6 +479,9 @@ func fieldEverStored(c *Ctx, structT types.Type, field int) bool {
 
 func runC10(c *Ctx) {
 	R := c.R
+	// the read helper's classification of what the handle delivered (shared with C09 R09.1): a zero-length read is a failure of
+	// the handle and must end the run with an error, not be skipped as a packet
+	checkPremises(c)
 	nf := 0
 	npaths := 0
 	for _, name := range typestateFuncs {
